@@ -446,3 +446,106 @@ func runPublishBeforeCancel(p *Program, r *RuleResult) {
 		r.add("process", "published-fields", Undecided, "", "no field written by a goroutine and read by an exported accessor found (anchor lost)")
 	}
 }
+
+// R-SHARED-WRITE (C13): the objects every process goroutine of a run shares are not written
+// by plain stores from code those goroutines execute.
+func init() {
+	ruleUsesCallGraph["R-SHARED-WRITE"] = true
+	register(&Rule{Name: "R-SHARED-WRITE", Min: 1,
+		Doc: "in every function reachable (VTA call graph) from a goroutine entry of the interpreter, no plain store goes into a field of the run-wide shared objects (the runtime environment and the global environment) or into an element of a map or slice reached through them; the counters use sync/atomic (R-ATOMIC) and everything else is set up before the first goroutine starts (R-REINIT)",
+		Run: runSharedWrite})
+}
+
+func runSharedWrite(p *Program, r *RuleResult) {
+	// the process goroutines: targets of go statements whose receiver is a *Process
+	var entries []*ssa.Function
+	for _, fn := range p.SrcFuncs {
+		if fn.Pkg == nil || fn.Pkg.Pkg.Path() != processPkg {
+			continue
+		}
+		for _, c := range p.callsIn(fn) {
+			if g, ok := c.(*ssa.Go); ok {
+				if sc := g.Common().StaticCallee(); sc != nil && sc.Signature.Recv() != nil && isNamed(sc.Signature.Recv().Type(), processPkg, "Process") {
+					entries = append(entries, sc)
+				}
+			}
+		}
+	}
+	if len(entries) == 0 {
+		r.add(processPkg, "process-goroutine-entries", Undecided, "", "no go statement starting a *Process method found")
+		return
+	}
+	inGo := p.reachableFuncs(entries, useCHA)
+	gf := &goFacts{inGo: inGo}
+	shared := map[string]bool{"RuntimeEnvironment": true, "GlobalEnvironment": true}
+	isShared := func(t types.Type) bool {
+		n := namedOf(t)
+		return n != nil && n.Obj().Pkg() != nil && n.Obj().Pkg().Path() == processPkg && shared[n.Obj().Name()]
+	}
+	// address rooted in a shared object?
+	var rooted func(v ssa.Value, d int) string
+	rooted = func(v ssa.Value, d int) string {
+		if d > 8 {
+			return ""
+		}
+		switch x := v.(type) {
+		case *ssa.FieldAddr:
+			if isShared(x.X.Type()) {
+				_, f, _ := fieldNameOf(x)
+				return namedOf(x.X.Type()).Obj().Name() + "." + f
+			}
+			return rooted(x.X, d+1)
+		case *ssa.IndexAddr:
+			return rooted(x.X, d+1)
+		case *ssa.UnOp:
+			return rooted(x.X, d+1)
+		case *ssa.Field:
+			if isShared(x.X.Type()) {
+				_, f, _ := fieldNameOf(x)
+				return namedOf(x.X.Type()).Obj().Name() + "." + f
+			}
+			return rooted(x.X, d+1)
+		}
+		return ""
+	}
+	nFn, nStores := 0, 0
+	for _, fn := range p.SrcFuncs {
+		if !gf.inGo[fn] || fn.Blocks == nil || !p.isFirstParty(fn) {
+			continue
+		}
+		root := fn
+		for root.Parent() != nil {
+			root = root.Parent()
+		}
+		if root.Pkg == nil || root.Pkg.Pkg.Path() != processPkg {
+			continue
+		}
+		nFn++
+		ord := 0
+		for _, b := range fn.Blocks {
+			for _, in := range b.Instrs {
+				var addr ssa.Value
+				switch x := in.(type) {
+				case *ssa.Store:
+					addr = x.Addr
+				case *ssa.MapUpdate:
+					addr = x.Map
+				}
+				if addr == nil {
+					continue
+				}
+				nStores++
+				if w := rooted(addr, 0); w != "" {
+					ord++
+					r.add(fnName(fn), fmt.Sprintf("plain-store#%d-to-%s", ord, w), Violated, p.instrPos(in),
+						fmt.Sprintf("%s is written by a plain store in code that the process goroutines run: every process of the run shares that object, so two of them (or one of them and the driver reading it) race", w))
+				}
+			}
+		}
+	}
+	if nFn >= 50 {
+		r.add("process (goroutine-reachable code)", "no-plain-store-into-shared-environment", Holds, "", fmt.Sprintf("%d functions reachable from goroutine entries, %d stores examined", nFn, nStores))
+	} else {
+		r.add("process (goroutine-reachable code)", "no-plain-store-into-shared-environment", Undecided, "", fmt.Sprintf("only %d goroutine-reachable functions found (at least 50 confirmed by hand)", nFn))
+	}
+}
